@@ -667,11 +667,11 @@ func (fr *frame) absorbConditional(st, sub *State, guard *Term) {
 	for k, v := range sub.heap {
 		old, ok := st.heap[k]
 		if !ok {
-			st.heap[k] = v // first touch creates the initial variable only
-			if v.Kind == KVar {
+			old = initialHeapTerm(k, v.Sort)
+			if v == old {
+				st.heap[k] = v // first touch only created the initial variable
 				continue
 			}
-			old = initialHeapTerm(k, v.Sort)
 		}
 		if old != v {
 			st.heap[k] = Ite(guard, v, old)
